@@ -233,7 +233,7 @@ pub(crate) mod kit {
         let s = sm_state_for::<M>(C::SYMBOLIC_MANAGER);
         let (arc, len, payloads) = any_uni::<C, N, M>(&s);
         let id: u32 = kani::any(); kani::assume(id < M as u32 && s.live[id as usize]);
-        let mut stream = std::mem::ManuallyDrop::new(MutinyStream::<u32, C, C::Derived> { stream_id: id, events_source: arc.clone(), _phantom: PhantomData });
+        let mut stream = std::mem::ManuallyDrop::new(MutinyStream::<u32, C, C::Derived>::new(id, &arc));
         let waker = sm::counting_waker(id as usize + 4);
         let mut cx = Context::from_waker(&waker);
         let r = Pin::new(&mut *stream).poll_next(&mut cx);
@@ -478,7 +478,7 @@ pub(crate) mod kit {
         let ch = leak_static(&arc);
         // an existing listener `old` ...
         let old: u32 = kani::any(); kani::assume(old < M as u32 && s.live[old as usize]);
-        let old_stream = MutinyStream::<u32, C, C::Derived> { stream_id: old, events_source: arc.clone(), _phantom: PhantomData };
+        let old_stream = MutinyStream::<u32, C, C::Derived>::new(old, &arc);
         // ... receives an event it never consumes, and goes away
         let x: u32 = kani::any();
         assert!(matches!(ch.send(x), keen_retry::RetryResult::Ok { .. }),    "send accepted");
